@@ -220,7 +220,7 @@ class BitStore:
 
     def getslice_withstep_msb0(self, key: slice, /) -> BitStore:
         if self.modified_length is not None:
-            key = slice(*key.indices(self.modified_length))
+            key = slice(*indices(key, self.modified_length))
         return BitStore(self._bitarray.__getitem__(key))
 
     def getslice_withstep_lsb0(self, key: slice, /) -> BitStore:
